@@ -15,18 +15,23 @@ typedef struct vf_kt KT;
 #define IN(T, name, MAX) VF_INPUT_ARR(T, name##_in, (MAX) + 1)
 /* {key,tag} input: keys symbolic, tag = TAG0 + index (element identity) */
 #define KTIN(name, MAX, TAG0) VF_INPUT_ARR(KT, name##_in, (MAX) + 1); for (int vf_i_##name = 0; vf_i_##name <= (MAX); ++vf_i_##name) name##_in[vf_i_##name].tag = (TAG0) + vf_i_##name
+/* tagged int input (see driver.cpp): key = x >> 4 symbolic over the full 28-bit range, tag = x & 15 = TAG0 + index (element identity) */
+#define TIN(name, MAX, TAG0) VF_INPUT_ARR(int, name##_in, (MAX) + 1); for (int vf_i_##name = 0; vf_i_##name <= (MAX); ++vf_i_##name) name##_in[vf_i_##name] = (int)(((unsigned)name##_in[vf_i_##name] & ~15u) | (unsigned)((TAG0) + vf_i_##name))
+#define KEY(x) ((x) >> 4)
+#define TAG(x) ((x) & 15)
 #define SPLIT(n, L) for (int vf_c_##n = 0; vf_c_##n <= (L); ++vf_c_##n) if (vf_c_##n == (int)(n)) for (int vf_once_##n = 1, n = vf_c_##n; vf_once_##n; vf_once_##n = 0)
 /* exact-size heap copy of name_in[0..n) (n: a SPLIT constant) */
 #define MK(T, name, n, MAX) T *name = (T *)VF_ALLOC((ul)(n) * sizeof(T)); for (int vf_i_##name = 0; vf_i_##name < (MAX); ++vf_i_##name) if (vf_i_##name < (n)) name[vf_i_##name] = name##_in[vf_i_##name]
 /* output buffer of exactly n elements (n: a SPLIT constant), contents indeterminate */
 #define OUT(T, name, n) T *name = (T *)VF_ALLOC((ul)(n) * sizeof(T))
-/* Two-range algorithms: (L+1)^2 SPLIT branches are too expensive.  They use one block of MAX elements per range instead and place
- * the range [name, name+n) at the START of its block (hi == 0: an access before first is out of bounds) or at its END (hi == 1: an access
- * behind last is out of bounds); hi is symbolic and the algorithm does not depend on it, so any access outside the range is an
- * out-of-bounds failure in one of the two placements.  The slack part of the block is never initialised. */
-#define ALIGN VF_INPUT_BOOL(hi)
-#define EMK(T, name, n, MAX) T *name##_blk = (T *)VF_ALLOC((MAX) * sizeof(T)); T *name = name##_blk + (hi ? (MAX) - (n) : 0); for (int vf_i_##name = 0; vf_i_##name < (MAX); ++vf_i_##name) if (vf_i_##name < (n)) name[vf_i_##name] = name##_in[vf_i_##name]
-#define EOUT(T, name, n, MAX) T *name##_blk = (T *)VF_ALLOC((MAX) * sizeof(T)); T *name = name##_blk + (hi ? (MAX) - (n) : 0)
+/* Two-range algorithms: (L+1)^2 SPLIT branches are too expensive, and so is a symbolic placement of the ranges inside larger blocks.
+ * They use one block of MAX elements per range with the range [name, name+n) at the START of the block: an access before first is an
+ * out-of-bounds failure; the tail [n, MAX) holds further symbolic input values, must be unchanged after the call (TAIL: nothing behind
+ * last is written) and a read behind last yields an arbitrary value (so it shows up in the postcondition if it matters at all). */
+#define EMK(T, name, n, MAX) T *name = (T *)VF_ALLOC((MAX) * sizeof(T)); for (int vf_i_##name = 0; vf_i_##name < (MAX); ++vf_i_##name) name[vf_i_##name] = name##_in[vf_i_##name]
+#define EOUT(T, name, MAX) VF_INPUT_ARR(T, name##_in, (MAX) + 1); EMK(T, name, 0, MAX)
+#define TAIL(name, n, MAX, EQ) for (int vf_t = 0; vf_t < (MAX); ++vf_t) if (vf_t >= (n)) VF_ASSERT(EQ(name[vf_t], name##_in[vf_t]), "nothing behind the end of the range is written")
+#define IEQ(x, y) ((x) == (y))
 #define LEN(n, L) VF_INPUT(unsigned char, n); VF_ASSUME(n <= (L))
 /* selector of a comparator / predicate (see driver.cpp): symbolic in [LO, HI] */
 #define SEL(c, LO, HI) VF_INPUT(unsigned char, c); VF_ASSUME(c >= (LO) && c <= (HI))
@@ -38,6 +43,8 @@ typedef struct vf_kt KT;
 
 /* the driver's comparators / predicates, restated */
 static _Bool lt(int c, int a, int b) { return c == 0 ? a < b : (c == 1 ? a > b : (c == 2 ? (a & 3) < (b & 3) : a % 3 < b % 3)); }
+/* comparator on the key of tagged ints; c == 4: operator< on the whole value (the default-comparator overloads) */
+static _Bool ltk(int c, int a, int b) { return c == 4 ? a < b : lt(c, KEY(a), KEY(b)); }
 static _Bool eqv(int c, int a, int b) { return !lt(c, a, b) && !lt(c, b, a); }
 static _Bool peq(int p, int a, int b) { return p == 0 ? a == b : (p == 1 ? (a & 3) == (b & 3) : a % 3 == b % 3); }
 static _Bool pred1(int p, int x) { return p == 0 ? (x & 3) == 0 : (p == 1 ? x < 0 : x % 3 == 0); }
@@ -78,20 +85,20 @@ static _Bool pred1(int p, int x) { return p == 0 ? (x & 3) == 0 : (p == 1 ? x < 
 
 /* ---- partition family [alg.partitions] ------------------------------------------------------------------------------------- */
 #define B_PARTITION(L, CALL, CLO, CHI) { LEN(n, L); SEL(p, CLO, CHI); VF_INPUT(int, g); IN(int, a, L); WIN(p == 2, a_in, L, ); \
-  SPLIT(n, L) { MK(int, a, n, L); int cnt = 0, gb = 0, ga = 0; \
+  SPLIT(p, 3) SPLIT(n, L) { MK(int, a, n, L); int cnt = 0, gb = 0, ga = 0; \
     FORK(k, L, n) { cnt += pred1(p, a_in[k]); gb += a_in[k] == g; } \
     int *r = CALL(a, a + n, p); \
     VF_ASSERT(r == a + cnt, "partition returns first + #{elements satisfying pred}"); \
     FORK(k, L, n) { ga += a[k] == g; VF_ASSERT(pred1(p, a[k]) == (k < cnt), "partition: pred holds exactly on [first, ret)"); } \
     VF_ASSERT(ga == gb, "partition permutes: every value occurs as often as before"); } \
   VF_REACH(); }
-#define B_STABLE_PARTITION(L) { LEN(n, L); KTIN(a, L, 0); \
-  SPLIT(n, L) { MK(KT, a, n, L); KT e[(L) + 1]; int cnt = 0, w = 0; \
-    FORK(k, L, n) if ((a_in[k].key & 3) == 0) { e[w] = a_in[k]; ++w; } cnt = w; \
-    FORK(k, L, n) if ((a_in[k].key & 3) != 0) { e[w] = a_in[k]; ++w; } \
-    KT *r = a_stable_partition(a, a + n); \
+#define B_STABLE_PARTITION(L) { LEN(n, L); TIN(a, L, 0); \
+  SPLIT(n, L) { MK(int, a, n, L); int e[(L) + 1]; int cnt = 0, w = 0; \
+    FORK(k, L, n) if ((KEY(a_in[k]) & 3) == 0) { e[w] = a_in[k]; ++w; } cnt = w; \
+    FORK(k, L, n) if ((KEY(a_in[k]) & 3) != 0) { e[w] = a_in[k]; ++w; } \
+    int *r = a_stable_partition(a, a + n); \
     VF_ASSERT(r == a + cnt, "stable_partition returns first + #{elements satisfying pred}"); \
-    FORK(k, L, n) VF_ASSERT(KTEQ(a[k], e[k]), "stable_partition: satisfying elements in their original order, then the others in their original order"); } \
+    FORK(k, L, n) VF_ASSERT(a[k] == e[k], "stable_partition: satisfying elements in their original order, then the others in their original order"); } \
   VF_REACH(); }
 #define B_PARTITION_COPY(L) { LEN(n, L); IN(int, a, L); \
   SPLIT(n, L) { MK(int, a, n, L); int cnt = 0, wt = 0, wf = 0; FORK(k, L, n) cnt += (a_in[k] & 3) == 0; \
@@ -106,7 +113,7 @@ static _Bool pred1(int p, int x) { return p == 0 ? (x & 3) == 0 : (p == 1 ? x < 
 /* ---- sorting [alg.sort]: sorted + permutation (count of a ghost value g unchanged: sound for all values) -------------------- */
 #define PERM_G(L, n) { int gb = 0, ga = 0; FORK(k, L, n) { gb += a_in[k] == g; ga += a[k] == g; } VF_ASSERT(ga == gb, "permutation: every value occurs as often as before"); }
 #define B_SORT(L, CALL, CLO, CHI, NMIN) { LEN(n, L); VF_ASSUME(n >= (NMIN)); SEL(c, CLO, CHI); VF_INPUT(int, g); IN(int, a, L); WIN(c == 3, a_in, L, ); \
-  SPLIT(n, L) { MK(int, a, n, L); \
+  SPLIT(c, 3) SPLIT(n, L) { MK(int, a, n, L); \
     CALL(a, a + n, c); \
     PERM_G(L, n) \
     FORK(k, (L) - 1, n - 1) VF_ASSERT(!lt(c, a[k + 1], a[k]), "sort: the result is sorted with respect to comp"); } \
@@ -120,25 +127,34 @@ static _Bool pred1(int p, int x) { return p == 0 ? (x & 3) == 0 : (p == 1 ? x < 
 /* partial_sort: [first,middle) sorted and no element of [middle,last) less than any of them; nth_element: nothing in [nth,last) is
  * less than anything in [first,nth], i.e. a[nth] is the element a full sort would put there */
 #define B_PARTIAL_SORT(L, CLO, CHI) { LEN(n, L); SEL(c, CLO, CHI); VF_INPUT(unsigned char, m); VF_ASSUME(m <= n); VF_INPUT(int, g); IN(int, a, L); WIN(c == 3, a_in, L, ); \
-  SPLIT(n, L) SPLIT(m, L) { MK(int, a, n, L); \
+  SPLIT(c, 3) SPLIT(n, L) SPLIT(m, L) { MK(int, a, n, L); \
     a_partial_sort(a, a + m, a + n, c); \
     PERM_G(L, n) \
     FORK(k, (L) - 1, m - 1) VF_ASSERT(!lt(c, a[k + 1], a[k]), "partial_sort: [first, middle) is sorted"); \
     FORK(i, L, m) FORK(j, L, n) if (j >= m) VF_ASSERT(!lt(c, a[j], a[i]), "partial_sort: no element of [middle, last) is less than an element of [first, middle)"); } \
   VF_REACH(); }
 #define B_NTH_ELEMENT(L, CLO, CHI) { LEN(n, L); SEL(c, CLO, CHI); VF_INPUT(unsigned char, m); VF_ASSUME(m <= n); VF_INPUT(int, g); IN(int, a, L); WIN(c == 3, a_in, L, ); \
-  SPLIT(n, L) SPLIT(m, L) { MK(int, a, n, L); \
+  SPLIT(c, 3) SPLIT(n, L) SPLIT(m, L) { MK(int, a, n, L); \
     a_nth_element(a, a + m, a + n, c); \
     PERM_G(L, n) \
     FORK(i, L, n) FORK(j, L, n) if (i <= m && j >= m && i < j) VF_ASSERT(!lt(c, a[j], a[i]), "nth_element: for i in [first, nth], j in [nth, last): !(a[j] < a[i])"); } \
   VF_REACH(); }
 #define B_STABLE_SORT(L, CALL, CLO, CHI) { LEN(n, L); SEL(c, CLO, CHI); KTIN(a, L, 0); WIN(c == 3, a_in, L, .key); \
-  SPLIT(n, L) { MK(KT, a, n, L); \
+  SPLIT(c, 3) SPLIT(n, L) { MK(KT, a, n, L); \
     CALL(a, a + n, c); \
     FORK(k, L, n) VF_ASSERT(a[k].tag >= 0 && a[k].tag < n && a[k].key == a_in[a[k].tag].key, "stable sort: every output element is an input element"); \
     FORK(j, L, n) FORK(k, L, n) if (j < k) VF_ASSERT(a[j].tag != a[k].tag, "stable sort: no input element is duplicated (permutation)"); \
     FORK(k, (L) - 1, n - 1) { VF_ASSERT(!lt(c, a[k + 1].key, a[k].key), "stable sort: the result is sorted with respect to comp"); \
       VF_ASSERT(lt(c, a[k].key, a[k + 1].key) || a[k].tag < a[k + 1].tag, "stable sort: equivalent elements keep their original order"); } } \
+  VF_REACH(); }
+
+#define B_STABLE_SORT_T(L, CALL, CLO, CHI) { LEN(n, L); SEL(c, CLO, CHI); TIN(a, L, 0); WIN(c == 3, a_in, L, >> 4); \
+  SPLIT(c, 3) SPLIT(n, L) { MK(int, a, n, L); \
+    CALL(a, a + n, c); \
+    FORK(k, L, n) VF_ASSERT(TAG(a[k]) < n && a[k] == a_in[TAG(a[k])], "stable sort: every output element is an input element"); \
+    FORK(j, L, n) FORK(k, L, n) if (j < k) VF_ASSERT(TAG(a[j]) != TAG(a[k]), "stable sort: no input element is duplicated (permutation)"); \
+    FORK(k, (L) - 1, n - 1) { VF_ASSERT(!ltk(c, a[k + 1], a[k]), "stable sort: the result is sorted with respect to comp"); \
+      VF_ASSERT(ltk(c, a[k], a[k + 1]) || TAG(a[k]) < TAG(a[k + 1]), "stable sort: equivalent elements keep their original order"); } } \
   VF_REACH(); }
 
 /* ---- is_permutation [alg.is.permutation] ----------------------------------------------------------------------------------- */
@@ -158,106 +174,86 @@ static _Bool pred1(int p, int x) { return p == 0 ? (x & 3) == 0 : (p == 1 ? x < 
 /* ---- search family [alg.search] [alg.find.end] [alg.find.first.of]: first / last position such that ... ---------------------- */
 #define MATCH_AT(ok, i, L, m, p) _Bool ok = (i) + (m) <= n; FORK(j, L, m) if (ok && !peq(p, a_in[(i) + j], b_in[j])) ok = 0;
 #define B_SEARCH(L, CALL, CLO, CHI) { LEN(n, L); LEN(m, L); SEL(p, CLO, CHI); IN(int, a, L); IN(int, b, L); WIN(p == 2, a_in, L, ); WIN(p == 2, b_in, L, ); \
-  SPLIT(n, L) SPLIT(m, L) { MK(int, a, n, L); MK(int, b, m, L); int idx = n; \
+  SPLIT(p, 3) SPLIT(n, L) SPLIT(m, L) { MK(int, a, n, L); MK(int, b, m, L); int idx = n; \
     for (int i = (L); i >= 0; --i) { MATCH_AT(ok, i, L, m, p) if (ok) idx = i; } \
     int *r = CALL(a, a + n, b, b + m, p); \
     VF_ASSERT(r == a + idx, "search returns the first position where the needle matches (first for an empty needle), else last"); } \
   VF_REACH(); }
-#define B_FIND_END(L, CLO, CHI) { LEN(n, L); LEN(m, L); SEL(p, CLO, CHI); IN(int, a, L); IN(int, b, L); WIN(p == 2, a_in, L, ); WIN(p == 2, b_in, L, ); ALIGN; \
-  { EMK(int, a, n, L); EMK(int, b, m, L); int idx = n; \
+#define B_FIND_END(L, CLO, CHI) { LEN(n, L); LEN(m, L); SEL(p, CLO, CHI); IN(int, a, L); IN(int, b, L); WIN(p == 2, a_in, L, ); WIN(p == 2, b_in, L, ); \
+  SPLIT(p, 3) { EMK(int, a, n, L); EMK(int, b, m, L); int idx = n; \
     for (int i = 0; i <= (L); ++i) { MATCH_AT(ok, i, L, m, p) if (ok && m > 0) idx = i; } \
     int *r = a_find_end(a, a + n, b, b + m, p); \
     VF_ASSERT(r == a + idx, "find_end returns the last position where the needle matches, last if none or the needle is empty"); } \
   VF_REACH(); }
 #define B_SEARCH_N(L, CLO, CHI, KNOWN) { LEN(n, L); VF_INPUT(signed char, s); VF_ASSUME(s >= -1 && s <= n + 1); SEL(p, CLO, CHI); VF_INPUT(int, v); IN(int, a, L); WIN(p == 2, a_in, L, ); if (p == 2) VF_ASSUME(v >= -4 && v <= 4); \
-  SPLIT(n, L) { MK(int, a, n, L); int idx = n, fm = n; \
+  SPLIT(p, 3) SPLIT(n, L) { MK(int, a, n, L); int idx = n, fm = n; \
     for (int i = (L); i >= 0; --i) { _Bool ok = i + (int)s <= n; FORK(j, (L) + 1, s) if (ok && !peq(p, a_in[i + j], v)) ok = 0; if (ok) idx = i; if (i < n && peq(p, a_in[i], v)) fm = i; } \
     KNOWN; \
     int *r = a_search_n(a, a + n, s, &v, p); \
     VF_ASSERT(r == a + idx, "search_n returns the first position of count consecutive matching elements (first for count <= 0), else last"); } \
   VF_REACH(); }
 #define B_FIND_FIRST_OF(L, CLO, CHI) { LEN(n, L); LEN(m, L); SEL(p, CLO, CHI); IN(int, a, L); IN(int, b, L); WIN(p == 2, a_in, L, ); WIN(p == 2, b_in, L, ); \
-  SPLIT(n, L) SPLIT(m, L) { MK(int, a, n, L); MK(int, b, m, L); int idx = n; \
+  SPLIT(p, 3) SPLIT(n, L) SPLIT(m, L) { MK(int, a, n, L); MK(int, b, m, L); int idx = n; \
     for (int i = (L) - 1; i >= 0; --i) if (i < n) { _Bool any = 0; FORK(j, L, m) if (peq(p, a_in[i], b_in[j])) any = 1; if (any) idx = i; } \
     int *r = a_find_first_of(a, a + n, b, b + m, p); \
     VF_ASSERT(r == a + idx, "find_first_of returns the first element that matches any element of the second range, else last"); } \
   VF_REACH(); }
-/* includes [includes]: for sorted ranges, true iff every equivalence class has at least as many members in range 1 as in range 2 */
-#define B_INCLUDES(L, CLO, CHI) { LEN(n, L); LEN(m, L); SEL(c, CLO, CHI); IN(int, a, L); IN(int, b, L); WIN(c == 3, a_in, L, ); WIN(c == 3, b_in, L, ); ALIGN; \
-  { EMK(int, a, n, L); EMK(int, b, m, L); ASSUME_SORTED(c, a_in, n, L, ); ASSUME_SORTED(c, b_in, m, L, ); _Bool ok = 1; \
-    FORK(j, L, m) { int ca = 0, cb = 0; FORK(i, L, n) ca += eqv(c, a_in[i], b_in[j]); FORK(k, L, m) cb += eqv(c, b_in[k], b_in[j]); if (cb > ca) ok = 0; } \
+/* includes [includes]: true iff the second sorted range is a sub-multiset of the first: plain two-finger reference */
+#define B_INCLUDES(L, CLO, CHI) { LEN(n, L); LEN(m, L); SEL(c, CLO, CHI); IN(int, a, L); IN(int, b, L); WIN(c == 3, a_in, L, ); WIN(c == 3, b_in, L, ); \
+  SPLIT(c, 3) { EMK(int, a, n, L); EMK(int, b, m, L); ASSUME_SORTED(c, a_in, n, L, ); ASSUME_SORTED(c, b_in, m, L, ); _Bool ok = 1; int i = 0, j = 0; \
+    for (int s = 0; s < 2 * (L); ++s) if (ok && j < m) { if (i >= n || lt(c, b_in[j], a_in[i])) ok = 0; else { if (!lt(c, a_in[i], b_in[j])) ++j; ++i; } } \
     _Bool r = a_includes(a, a + n, b, b + m, c); \
-    VF_ASSERT(r == ok, "includes: true iff the second sorted range is a sub-multiset of the first (true for an empty second range)"); } \
+    VF_ASSERT(r == ok, "includes: true iff the second sorted range is a sub-multiset of the first (true for an empty second range)"); \
+    TAIL(a, n, L, IEQ); TAIL(b, m, L, IEQ); } \
   VF_REACH(); }
 
 /* ---- merge / inplace_merge [alg.merge]: the final position of every element in closed form (sorted, stable, range 1 first) ---- */
-#define B_MERGE(L, CLO, CHI) { LEN(na, L); LEN(nb, L); SEL(c, CLO, CHI); KTIN(a, L, 0); KTIN(b, L, 100); WIN(c == 3, a_in, L, .key); WIN(c == 3, b_in, L, .key); ALIGN; \
-  { EMK(KT, a, na, L); EMK(KT, b, nb, L); ASSUME_SORTED(c, a_in, na, L, .key); ASSUME_SORTED(c, b_in, nb, L, .key); EOUT(KT, d, na + nb, 2 * (L)); \
-    KT *r = a_merge(a, a + na, b, b + nb, d, c); \
+#define TSORTED(c, a, n, L) FORK(vf_s, (L) - 1, (int)(n) - 1) VF_ASSUME(!ltk(c, a[vf_s + 1], a[vf_s]))
+#define B_MERGE(L, CALL, CLO, CHI) { LEN(na, L); LEN(nb, L); SEL(c, CLO, CHI); TIN(a, L, 0); TIN(b, L, 8); WIN(c == 3, a_in, L, >> 4); WIN(c == 3, b_in, L, >> 4); \
+  SPLIT(c, 4) { EMK(int, a, na, L); EMK(int, b, nb, L); TSORTED(c, a_in, na, L); TSORTED(c, b_in, nb, L); EOUT(int, d, 2 * (L)); \
+    int *r = CALL; \
     VF_ASSERT(r == d + (na + nb), "merge returns result + (last1 - first1) + (last2 - first2)"); \
-    FORK(i, L, na) { int pos = i; FORK(j, L, nb) pos += lt(c, b_in[j].key, a_in[i].key); VF_ASSERT(KTEQ(d[pos], a_in[i]), "merge: a[i] lands behind exactly the elements of range 2 that are less than it"); VF_ASSERT(KTEQ(a[i], a_in[i]), "merge leaves range 1 unchanged"); } \
-    FORK(j, L, nb) { int pos = j; FORK(i, L, na) pos += !lt(c, b_in[j].key, a_in[i].key); VF_ASSERT(KTEQ(d[pos], b_in[j]), "merge: b[j] lands behind exactly the elements of range 1 that are not greater than it"); VF_ASSERT(KTEQ(b[j], b_in[j]), "merge leaves range 2 unchanged"); } } \
+    FORK(i, L, na) { int pos = i; FORK(j, L, nb) pos += ltk(c, b_in[j], a_in[i]); VF_ASSERT(d[pos] == a_in[i], "merge: a[i] lands behind exactly the elements of range 2 that are less than it"); VF_ASSERT(a[i] == a_in[i], "merge leaves range 1 unchanged"); } \
+    FORK(j, L, nb) { int pos = j; FORK(i, L, na) pos += !ltk(c, b_in[j], a_in[i]); VF_ASSERT(d[pos] == b_in[j], "merge: b[j] lands behind exactly the elements of range 1 that are not greater than it"); VF_ASSERT(b[j] == b_in[j], "merge leaves range 2 unchanged"); } \
+    TAIL(d, na + nb, 2 * (L), IEQ); TAIL(a, na, L, IEQ); TAIL(b, nb, L, IEQ); } \
   VF_REACH(); }
-#define B_MERGE_INT(L, CALL) { LEN(na, L); LEN(nb, L); IN(int, a, L); IN(int, b, L); ALIGN; \
-  { EMK(int, a, na, L); EMK(int, b, nb, L); ASSUME_SORTED(0, a_in, na, L, ); ASSUME_SORTED(0, b_in, nb, L, ); EOUT(int, d, na + nb, 2 * (L)); \
-    int *r = CALL(a, a + na, b, b + nb, d); \
-    VF_ASSERT(r == d + (na + nb), "merge returns result + (last1 - first1) + (last2 - first2)"); \
-    FORK(i, L, na) { int pos = i; FORK(j, L, nb) pos += b_in[j] < a_in[i]; VF_ASSERT(d[pos] == a_in[i], "merge: a[i] lands behind exactly the elements of range 2 that are less than it"); } \
-    FORK(j, L, nb) { int pos = j; FORK(i, L, na) pos += !(b_in[j] < a_in[i]); VF_ASSERT(d[pos] == b_in[j], "merge: b[j] lands behind exactly the elements of range 1 that are not greater than it"); } } \
-  VF_REACH(); }
-#define B_INPLACE_MERGE(L, CLO, CHI) { LEN(n, L); VF_INPUT(unsigned char, m); VF_ASSUME(m <= n); SEL(c, CLO, CHI); KTIN(a, L, 0); WIN(c == 3, a_in, L, .key); ALIGN; \
-  { EMK(KT, a, n, L); \
-    FORK(k, (L) - 1, n - 1) if (k + 1 != m) VF_ASSUME(!lt(c, a_in[k + 1].key, a_in[k].key)); \
-    a_inplace_merge(a, a + m, a + n, c); \
-    FORK(i, L, m) { int pos = i; FORK(j, L, n) if (j >= m) pos += lt(c, a_in[j].key, a_in[i].key); VF_ASSERT(KTEQ(a[pos], a_in[i]), "inplace_merge: an element of the first half lands behind exactly the second-half elements less than it"); } \
-    FORK(j, L, n) if (j >= m) { int pos = j - m; FORK(i, L, m) pos += !lt(c, a_in[j].key, a_in[i].key); VF_ASSERT(KTEQ(a[pos], a_in[j]), "inplace_merge: an element of the second half lands behind exactly the first-half elements not greater than it"); } } \
-  VF_REACH(); }
-#define B_INPLACE_MERGE_INT(L) { LEN(n, L); VF_INPUT(unsigned char, m); VF_ASSUME(m <= n); VF_INPUT(int, g); IN(int, a, L); ALIGN; \
-  { EMK(int, a, n, L); \
-    FORK(k, (L) - 1, n - 1) if (k + 1 != m) VF_ASSUME(!(a_in[k + 1] < a_in[k])); \
-    a_inplace_merge_int(a, a + m, a + n); \
-    PERM_G(L, n) \
-    FORK(k, (L) - 1, n - 1) VF_ASSERT(!(a[k + 1] < a[k]), "inplace_merge: the result is sorted"); } \
+#define B_INPLACE_MERGE(L, CALL, CLO, CHI) { LEN(n, L); VF_INPUT(unsigned char, m); VF_ASSUME(m <= n); SEL(c, CLO, CHI); TIN(a, L, 0); WIN(c == 3, a_in, L, >> 4); \
+  SPLIT(c, 4) { EMK(int, a, n, L); \
+    FORK(k, (L) - 1, n - 1) if (k + 1 != m) VF_ASSUME(!ltk(c, a_in[k + 1], a_in[k])); \
+    CALL; \
+    FORK(i, L, m) { int pos = i; FORK(j, L, n) if (j >= m) pos += ltk(c, a_in[j], a_in[i]); VF_ASSERT(a[pos] == a_in[i], "inplace_merge: an element of the first half lands behind exactly the second-half elements less than it"); } \
+    FORK(j, L, n) if (j >= m) { int pos = j - m; FORK(i, L, m) pos += !ltk(c, a_in[j], a_in[i]); VF_ASSERT(a[pos] == a_in[j], "inplace_merge: an element of the second half lands behind exactly the first-half elements not greater than it"); } \
+    TAIL(a, n, L, IEQ); } \
   VF_REACH(); }
 
-/* ---- set operations [alg.set.operations]: plain two-finger reference; {key,tag} elements show which range an element is copied from */
+/* ---- set operations [alg.set.operations]: plain two-finger reference; the tags show which range an output element is copied from ---- */
 enum { OP_UNION, OP_INTER, OP_DIFF, OP_SYM };
-static int ref_setop(int op, int c, const KT *a, int na, const KT *b, int nb, KT *e, int cap)
+static int ref_setop(int op, int c, const int *a, int na, const int *b, int nb, int *e, int cap)
 {
     int i = 0, j = 0, w = 0;
     for (int s = 0; s < cap; ++s) {
         if (i < na && j < nb) {
-            if (lt(c, a[i].key, b[j].key)) { if (op != OP_INTER) { e[w] = a[i]; ++w; } ++i; }
-            else if (lt(c, b[j].key, a[i].key)) { if (op == OP_UNION || op == OP_SYM) { e[w] = b[j]; ++w; } ++j; }
+            if (ltk(c, a[i], b[j])) { if (op != OP_INTER) { e[w] = a[i]; ++w; } ++i; }
+            else if (ltk(c, b[j], a[i])) { if (op == OP_UNION || op == OP_SYM) { e[w] = b[j]; ++w; } ++j; }
             else { if (op == OP_UNION || op == OP_INTER) { e[w] = a[i]; ++w; } ++i; ++j; }
         } else if (i < na) { if (op != OP_INTER) { e[w] = a[i]; ++w; } ++i; }
         else if (j < nb) { if (op == OP_UNION || op == OP_SYM) { e[w] = b[j]; ++w; } ++j; }
     }
     return w;
 }
-#define B_SETOP(L, OP, CALL, WHAT, CLO, CHI) { LEN(na, L); LEN(nb, L); SEL(c, CLO, CHI); KTIN(a, L, 0); KTIN(b, L, 100); WIN(c == 3, a_in, L, .key); WIN(c == 3, b_in, L, .key); ALIGN; \
-  { EMK(KT, a, na, L); EMK(KT, b, nb, L); ASSUME_SORTED(c, a_in, na, L, .key); ASSUME_SORTED(c, b_in, nb, L, .key); \
-    KT e[2 * (L) + 1]; int ne = ref_setop(OP, c, a_in, na, b_in, nb, e, 2 * (L)); \
-    { EOUT(KT, d, ne, 2 * (L)); \
-      KT *r = CALL(a, a + na, b, b + nb, d, c); \
-      VF_ASSERT(r == d + ne, WHAT " returns the end of the constructed range"); \
-      FORK(k, 2 * (L), ne) VF_ASSERT(KTEQ(d[k], e[k]), WHAT ": the output is the standard's sorted result, equivalent elements taken from the prescribed range"); \
-      FORK(i, L, na) VF_ASSERT(KTEQ(a[i], a_in[i]), WHAT " leaves range 1 unchanged"); FORK(j, L, nb) VF_ASSERT(KTEQ(b[j], b_in[j]), WHAT " leaves range 2 unchanged"); } } \
-  VF_REACH(); }
-/* default-comparator overloads over int: compared with the same reference on keys */
-#define B_SETOP_INT(L) { LEN(na, L); LEN(nb, L); SEL(op, 0, 3); KTIN(ka, L, 0); KTIN(kb, L, 100); ALIGN; \
-  { ASSUME_SORTED(0, ka_in, na, L, .key); ASSUME_SORTED(0, kb_in, nb, L, .key); \
-    EOUT(int, a, na, L); EOUT(int, b, nb, L); FORK(i, L, na) a[i] = ka_in[i].key; FORK(j, L, nb) b[j] = kb_in[j].key; \
-    KT e[2 * (L) + 1]; int ne = ref_setop(op, 0, ka_in, na, kb_in, nb, e, 2 * (L)); \
-    { EOUT(int, d, ne, 2 * (L)); \
-      int *r = a_set_ops_int(op, a, a + na, b, b + nb, d); \
-      VF_ASSERT(r == d + ne, "set_union/intersection/difference/symmetric_difference (operator<) return the end of the constructed range"); \
-      FORK(k, 2 * (L), ne) VF_ASSERT(d[k] == e[k].key, "set operations (operator<): the output is the standard's sorted result"); } } \
+#define B_SETOP(L, OP, CALL, WHAT, CLO, CHI) { LEN(na, L); LEN(nb, L); SEL(c, CLO, CHI); TIN(a, L, 0); TIN(b, L, 8); WIN(c == 3, a_in, L, >> 4); WIN(c == 3, b_in, L, >> 4); \
+  SPLIT(c, 4) { EMK(int, a, na, L); EMK(int, b, nb, L); TSORTED(c, a_in, na, L); TSORTED(c, b_in, nb, L); \
+    int e[2 * (L) + 1]; int ne = ref_setop(OP, c, a_in, na, b_in, nb, e, 2 * (L)); EOUT(int, d, 2 * (L)); \
+    int *r = CALL; \
+    VF_ASSERT(r == d + ne, WHAT " returns the end of the constructed range"); \
+    FORK(k, 2 * (L), ne) VF_ASSERT(d[k] == e[k], WHAT ": the output is the standard's sorted result, equivalent elements taken from the prescribed range"); \
+    FORK(i, L, na) VF_ASSERT(a[i] == a_in[i], WHAT " leaves range 1 unchanged"); FORK(j, L, nb) VF_ASSERT(b[j] == b_in[j], WHAT " leaves range 2 unchanged"); \
+    TAIL(d, ne, 2 * (L), IEQ); TAIL(a, na, L, IEQ); TAIL(b, nb, L, IEQ); } \
   VF_REACH(); }
 
 /* ---- numeric: transform_reduce [transform.reduce] (unsigned: wrap-around is defined) ----------------------------------------- */
 #define B_TRANSFORM_REDUCE(L) { LEN(n, L); SEL(w, 0, 2); VF_INPUT(unsigned, init); IN(unsigned, a, L); IN(unsigned, b, L); \
-  SPLIT(n, L) { MK(unsigned, a, n, L); MK(unsigned, b, n, L); unsigned e = init; \
+  SPLIT(w, 3) SPLIT(n, L) { MK(unsigned, a, n, L); MK(unsigned, b, n, L); unsigned e = init; \
     FORK(k, L, n) e = w == 0 ? e + a_in[k] * b_in[k] : (w == 1 ? e ^ (a_in[k] & b_in[k]) : e + a_in[k] * 3u); \
     unsigned r = w == 0 ? a_transform_reduce2(a, a + n, b, init) : (w == 1 ? a_transform_reduce2_op(a, a + n, b, init) : a_transform_reduce1(a, a + n, init)); \
     VF_ASSERT(r == e, "transform_reduce: init reduced with transform(a[k], b[k]) / transform(a[k]) over the range"); } \
@@ -265,203 +261,286 @@ static int ref_setop(int op, int c, const KT *a, int na, const KT *b, int nb, KT
 
 /* ============================================================ groups =========================================================
  * <name>: quick, len<=4 (or as stated in bound=); <name>_t: the tier=thorough twin with len<=6; *_mod3: the a % 3 comparator / predicate */
-/*@GROUP name=rotate props=C06,C02 kind=B bound=len<=4 unwind=7 solver=kissat@*/
+/*@GROUP name=rotate props=C06,C02 kind=B bound=len<=4 unwind=7 solver=kissat timeout=600@*/
 void h_rotate(void) B_ROTATE(4, a_rotate)
-/*@GROUP name=rotate_t props=C06,C02 kind=B bound=len<=6 unwind=9 solver=kissat tier=thorough@*/
+/*@GROUP name=rotate_t props=C06,C02 kind=B bound=len<=6 unwind=9 solver=kissat tier=thorough timeout=3000@*/
 void h_rotate_t(void) B_ROTATE(6, a_rotate)
-/*@GROUP name=rotate_fwd props=C06,C02 kind=B bound=len<=4 unwind=7 solver=kissat@*/
+/*@GROUP name=rotate_fwd props=C06,C02 kind=B bound=len<=4 unwind=7 solver=kissat timeout=600@*/
 void h_rotate_fwd(void) B_ROTATE(4, a_rotate_fwd)
-/*@GROUP name=rotate_fwd_t props=C06,C02 kind=B bound=len<=6 unwind=9 solver=kissat tier=thorough@*/
+/*@GROUP name=rotate_fwd_t props=C06,C02 kind=B bound=len<=6 unwind=9 solver=kissat tier=thorough timeout=3000@*/
 void h_rotate_fwd_t(void) B_ROTATE(6, a_rotate_fwd)
-/*@GROUP name=rotate_copy props=C06,C02 kind=B bound=len<=4 unwind=7 solver=kissat@*/
+/*@GROUP name=rotate_copy props=C06,C02 kind=B bound=len<=4 unwind=7 solver=kissat timeout=600@*/
 void h_rotate_copy(void) B_ROTATE_COPY(4)
-/*@GROUP name=rotate_copy_t props=C06,C02 kind=B bound=len<=6 unwind=9 solver=kissat tier=thorough@*/
+/*@GROUP name=rotate_copy_t props=C06,C02 kind=B bound=len<=6 unwind=9 solver=kissat tier=thorough timeout=3000@*/
 void h_rotate_copy_t(void) B_ROTATE_COPY(6)
-/*@GROUP name=shift_left props=C06,C02 kind=B bound=len<=4,n_in_[-1,len+1] unwind=7 solver=kissat@*/
+/*@GROUP name=shift_left props=C06,C02 kind=B bound=len<=4,n_in_[-1,len+1] unwind=7 solver=kissat timeout=600@*/
 void h_shift_left(void) B_SHIFT_LEFT(4, a_shift_left)
-/*@GROUP name=shift_left_t props=C06,C02 kind=B bound=len<=6,n_in_[-1,len+1] unwind=9 solver=kissat tier=thorough@*/
+/*@GROUP name=shift_left_t props=C06,C02 kind=B bound=len<=6,n_in_[-1,len+1] unwind=9 solver=kissat tier=thorough timeout=3000@*/
 void h_shift_left_t(void) B_SHIFT_LEFT(6, a_shift_left)
-/*@GROUP name=shift_left_fwd props=C06,C02 kind=B bound=len<=4,n_in_[-1,len+1] unwind=7 solver=kissat@*/
+/*@GROUP name=shift_left_fwd props=C06,C02 kind=B bound=len<=4,n_in_[-1,len+1] unwind=7 solver=kissat timeout=600@*/
 void h_shift_left_fwd(void) B_SHIFT_LEFT(4, a_shift_left_fwd)
-/*@GROUP name=shift_left_fwd_t props=C06,C02 kind=B bound=len<=6,n_in_[-1,len+1] unwind=9 solver=kissat tier=thorough@*/
+/*@GROUP name=shift_left_fwd_t props=C06,C02 kind=B bound=len<=6,n_in_[-1,len+1] unwind=9 solver=kissat tier=thorough timeout=3000@*/
 void h_shift_left_fwd_t(void) B_SHIFT_LEFT(6, a_shift_left_fwd)
-/*@GROUP name=shift_right props=C06,C02 kind=B bound=len<=4,n_in_[-1,len+1] unwind=7 solver=kissat@*/
+/*@GROUP name=shift_right props=C06,C02 kind=B bound=len<=4,n_in_[-1,len+1] unwind=7 solver=kissat timeout=600@*/
 void h_shift_right(void) B_SHIFT_RIGHT(4, a_shift_right, VF_KNOWN(C06_shift_right_first_lost, s > 0 && s < n && a_in[0] != 0); VF_KNOWN(C06_shift_right_zero_returns_last, s == 0 && n > 0))
-/*@GROUP name=shift_right_t props=C06,C02 kind=B bound=len<=6,n_in_[-1,len+1] unwind=9 solver=kissat tier=thorough@*/
+/*@GROUP name=shift_right_t props=C06,C02 kind=B bound=len<=6,n_in_[-1,len+1] unwind=9 solver=kissat tier=thorough timeout=3000@*/
 void h_shift_right_t(void) B_SHIFT_RIGHT(6, a_shift_right, VF_KNOWN(C06_shift_right_first_lost, s > 0 && s < n && a_in[0] != 0); VF_KNOWN(C06_shift_right_zero_returns_last, s == 0 && n > 0))
-/*@GROUP name=shift_right_bidi props=C06,C02 kind=B bound=len<=4,n_in_[-1,len+1] unwind=7 solver=kissat@*/
+/*@GROUP name=shift_right_bidi props=C06,C02 kind=B bound=len<=4,n_in_[-1,len+1] unwind=7 solver=kissat timeout=600@*/
 void h_shift_right_bidi(void) B_SHIFT_RIGHT(4, a_shift_right_bidi, VF_KNOWN(C06_shift_right_first_lost, s > 0 && s < n && a_in[0] != 0); VF_KNOWN(C06_shift_right_zero_returns_last, s == 0 && n > 0))
-/*@GROUP name=shift_right_bidi_t props=C06,C02 kind=B bound=len<=6,n_in_[-1,len+1] unwind=9 solver=kissat tier=thorough@*/
+/*@GROUP name=shift_right_bidi_t props=C06,C02 kind=B bound=len<=6,n_in_[-1,len+1] unwind=9 solver=kissat tier=thorough timeout=3000@*/
 void h_shift_right_bidi_t(void) B_SHIFT_RIGHT(6, a_shift_right_bidi, VF_KNOWN(C06_shift_right_first_lost, s > 0 && s < n && a_in[0] != 0); VF_KNOWN(C06_shift_right_zero_returns_last, s == 0 && n > 0))
-/*@GROUP name=partition props=C06,C02 kind=B bound=len<=4 unwind=7 solver=kissat@*/
+/*@GROUP name=partition props=C06,C02 kind=B bound=len<=4 unwind=7 solver=kissat timeout=600@*/
 void h_partition(void) B_PARTITION(4, a_partition, 0, 1)
-/*@GROUP name=partition_t props=C06,C02 kind=B bound=len<=6 unwind=9 solver=kissat tier=thorough@*/
+/*@GROUP name=partition_t props=C06,C02 kind=B bound=len<=6 unwind=9 solver=kissat tier=thorough timeout=3000@*/
 void h_partition_t(void) B_PARTITION(6, a_partition, 0, 1)
-/*@GROUP name=partition_fwd props=C06,C02 kind=B bound=len<=4 unwind=7 solver=kissat@*/
+/*@GROUP name=partition_fwd props=C06,C02 kind=B bound=len<=4 unwind=7 solver=kissat timeout=600@*/
 void h_partition_fwd(void) B_PARTITION(4, a_partition_fwd, 0, 1)
-/*@GROUP name=partition_fwd_t props=C06,C02 kind=B bound=len<=6 unwind=9 solver=kissat tier=thorough@*/
+/*@GROUP name=partition_fwd_t props=C06,C02 kind=B bound=len<=6 unwind=9 solver=kissat tier=thorough timeout=3000@*/
 void h_partition_fwd_t(void) B_PARTITION(6, a_partition_fwd, 0, 1)
-/*@GROUP name=partition_mod3 props=C06,C02 kind=B bound=len<=4,values_in_[-4,4] unwind=7 solver=kissat@*/
+/*@GROUP name=partition_mod3 props=C06,C02 kind=B bound=len<=4,values_in_[-4,4] unwind=7 solver=kissat timeout=600@*/
 void h_partition_mod3(void) B_PARTITION(4, a_partition, 2, 2)
-/*@GROUP name=partition_mod3_t props=C06,C02 kind=B bound=len<=6,values_in_[-4,4] unwind=9 solver=kissat tier=thorough@*/
+/*@GROUP name=partition_mod3_t props=C06,C02 kind=B bound=len<=6,values_in_[-4,4] unwind=9 solver=kissat tier=thorough timeout=3000@*/
 void h_partition_mod3_t(void) B_PARTITION(6, a_partition, 2, 2)
-/*@GROUP name=stable_partition props=C06,C02 kind=B bound=len<=4 unwind=7 solver=kissat@*/
+/*@GROUP name=stable_partition props=C06,C02 kind=B bound=len<=4 unwind=7 solver=kissat timeout=600@*/
 void h_stable_partition(void) B_STABLE_PARTITION(4)
-/*@GROUP name=stable_partition_t props=C06,C02 kind=B bound=len<=6 unwind=9 solver=kissat tier=thorough@*/
+/*@GROUP name=stable_partition_t props=C06,C02 kind=B bound=len<=6 unwind=9 solver=kissat tier=thorough timeout=3000@*/
 void h_stable_partition_t(void) B_STABLE_PARTITION(6)
-/*@GROUP name=partition_copy props=C06,C02 kind=B bound=len<=4 unwind=7 solver=kissat@*/
+/*@GROUP name=partition_copy props=C06,C02 kind=B bound=len<=4 unwind=7 solver=kissat timeout=600@*/
 void h_partition_copy(void) B_PARTITION_COPY(4)
-/*@GROUP name=partition_copy_t props=C06,C02 kind=B bound=len<=6 unwind=9 solver=kissat tier=thorough@*/
+/*@GROUP name=partition_copy_t props=C06,C02 kind=B bound=len<=6 unwind=9 solver=kissat tier=thorough timeout=3000@*/
 void h_partition_copy_t(void) B_PARTITION_COPY(6)
-/*@GROUP name=sort props=C06,C02 kind=B bound=len<=4 unwind=19 solver=kissat@*/
+/*@GROUP name=sort props=C06,C02 kind=B bound=len<=4 unwind=19 solver=kissat timeout=600@*/
 void h_sort(void) B_SORT(4, a_sort, 0, 2, 0)
-/*@GROUP name=sort_t props=C06,C02 kind=B bound=len<=6 unwind=39 solver=kissat tier=thorough@*/
+/*@GROUP name=sort_t props=C06,C02 kind=B bound=len<=6 unwind=39 solver=kissat tier=thorough timeout=3000@*/
 void h_sort_t(void) B_SORT(6, a_sort, 0, 2, 0)
-/*@GROUP name=sort_mod3 props=C06,C02 kind=B bound=len<=4,values_in_[-4,4] unwind=19 solver=kissat@*/
+/*@GROUP name=sort_mod3 props=C06,C02 kind=B bound=len<=4,values_in_[-4,4] unwind=19 solver=kissat timeout=600@*/
 void h_sort_mod3(void) B_SORT(4, a_sort, 3, 3, 0)
-/*@GROUP name=sort_mod3_t props=C06,C02 kind=B bound=len<=6,values_in_[-4,4] unwind=39 solver=kissat tier=thorough@*/
+/*@GROUP name=sort_mod3_t props=C06,C02 kind=B bound=len<=6,values_in_[-4,4] unwind=39 solver=kissat tier=thorough timeout=3000@*/
 void h_sort_mod3_t(void) B_SORT(6, a_sort, 3, 3, 0)
-/*@GROUP name=gnome_sort props=C06,C02 kind=B bound=len<=4 unwind=19 solver=kissat@*/
+/*@GROUP name=gnome_sort props=C06,C02 kind=B bound=len<=4 unwind=19 solver=kissat timeout=600@*/
 void h_gnome_sort(void) B_SORT(4, a_gnome_sort, 0, 2, 0)
-/*@GROUP name=gnome_sort_t props=C06,C02 kind=B bound=len<=6 unwind=39 solver=kissat tier=thorough@*/
+/*@GROUP name=gnome_sort_t props=C06,C02 kind=B bound=len<=6 unwind=39 solver=kissat tier=thorough timeout=3000@*/
 void h_gnome_sort_t(void) B_SORT(6, a_gnome_sort, 0, 2, 0)
-/*@GROUP name=gnome_sort_ra props=C06,C02 kind=B bound=len<=4 unwind=19 solver=kissat@*/
-void h_gnome_sort_ra(void) B_SORT(4, a_gnome_sort_ra, 0, 2, 0)
-/*@GROUP name=gnome_sort_ra_t props=C06,C02 kind=B bound=len<=6 unwind=39 solver=kissat tier=thorough@*/
-void h_gnome_sort_ra_t(void) B_SORT(6, a_gnome_sort_ra, 0, 2, 0)
-/*@GROUP name=gnome_sort_bidi props=C06,C02 kind=B bound=len<=4 unwind=19 solver=kissat@*/
+/*@GROUP name=gnome_sort_bidi props=C06,C02 kind=B bound=len<=4 unwind=19 solver=kissat objbits=12 timeout=600@*/
 void h_gnome_sort_bidi(void) B_SORT(4, a_gnome_sort_bidi, 0, 2, 0)
-/*@GROUP name=gnome_sort_bidi_t props=C06,C02 kind=B bound=len<=6 unwind=39 solver=kissat tier=thorough@*/
+/*@GROUP name=gnome_sort_bidi_t props=C06,C02 kind=B bound=len<=6 unwind=39 solver=kissat tier=thorough objbits=13 timeout=3000@*/
 void h_gnome_sort_bidi_t(void) B_SORT(6, a_gnome_sort_bidi, 0, 2, 0)
-/*@GROUP name=bubble_sort props=C06,C02 kind=B bound=len<=4 unwind=7 solver=kissat@*/
+/*@GROUP name=bubble_sort props=C06,C02 kind=B bound=len<=4 unwind=7 solver=kissat timeout=600@*/
 void h_bubble_sort(void) B_SORT(4, a_bubble_sort, 0, 2, 0)
-/*@GROUP name=bubble_sort_t props=C06,C02 kind=B bound=len<=6 unwind=9 solver=kissat tier=thorough@*/
+/*@GROUP name=bubble_sort_t props=C06,C02 kind=B bound=len<=6 unwind=9 solver=kissat tier=thorough timeout=3000@*/
 void h_bubble_sort_t(void) B_SORT(6, a_bubble_sort, 0, 2, 0)
-/*@GROUP name=exchange_sort props=C06,C02 kind=B bound=len<=4 unwind=7 solver=kissat@*/
+/*@GROUP name=exchange_sort props=C06,C02 kind=B bound=len<=4 unwind=7 solver=kissat timeout=600@*/
 void h_exchange_sort(void) B_SORT(4, a_exchange_sort, 0, 2, 1)
-/*@GROUP name=exchange_sort_t props=C06,C02 kind=B bound=len<=6 unwind=9 solver=kissat tier=thorough@*/
+/*@GROUP name=exchange_sort_t props=C06,C02 kind=B bound=len<=6 unwind=9 solver=kissat tier=thorough timeout=3000@*/
 void h_exchange_sort_t(void) B_SORT(6, a_exchange_sort, 0, 2, 1)
-/*@GROUP name=partial_sort props=C06,C02 kind=B bound=len<=4 unwind=19 solver=kissat@*/
+/*@GROUP name=partial_sort props=C06,C02 kind=B bound=len<=4 unwind=19 solver=kissat objbits=12 timeout=600@*/
 void h_partial_sort(void) B_PARTIAL_SORT(4, 0, 2)
-/*@GROUP name=partial_sort_t props=C06,C02 kind=B bound=len<=6 unwind=39 solver=kissat tier=thorough@*/
+/*@GROUP name=partial_sort_t props=C06,C02 kind=B bound=len<=6 unwind=39 solver=kissat tier=thorough objbits=13 timeout=3000@*/
 void h_partial_sort_t(void) B_PARTIAL_SORT(6, 0, 2)
-/*@GROUP name=nth_element props=C06,C02 kind=B bound=len<=4 unwind=19 solver=kissat@*/
+/*@GROUP name=nth_element props=C06,C02 kind=B bound=len<=4 unwind=19 solver=kissat objbits=12 timeout=600@*/
 void h_nth_element(void) B_NTH_ELEMENT(4, 0, 2)
-/*@GROUP name=nth_element_t props=C06,C02 kind=B bound=len<=6 unwind=39 solver=kissat tier=thorough@*/
+/*@GROUP name=nth_element_t props=C06,C02 kind=B bound=len<=6 unwind=39 solver=kissat tier=thorough objbits=13 timeout=3000@*/
 void h_nth_element_t(void) B_NTH_ELEMENT(6, 0, 2)
-/*@GROUP name=stable_sort props=C06,C02 kind=B bound=len<=4 unwind=7 solver=kissat@*/
+/*@GROUP name=stable_sort props=C06,C02 kind=B bound=len<=4 unwind=7 solver=kissat timeout=600@*/
 void h_stable_sort(void) B_STABLE_SORT(4, a_stable_sort, 0, 2)
-/*@GROUP name=stable_sort_t props=C06,C02 kind=B bound=len<=6 unwind=9 solver=kissat tier=thorough@*/
+/*@GROUP name=stable_sort_t props=C06,C02 kind=B bound=len<=6 unwind=9 solver=kissat tier=thorough timeout=3000@*/
 void h_stable_sort_t(void) B_STABLE_SORT(6, a_stable_sort, 0, 2)
-/*@GROUP name=stable_sort_mod3 props=C06,C02 kind=B bound=len<=4,values_in_[-4,4] unwind=7 solver=kissat@*/
+/*@GROUP name=stable_sort_mod3 props=C06,C02 kind=B bound=len<=4,values_in_[-4,4] unwind=7 solver=kissat timeout=600@*/
 void h_stable_sort_mod3(void) B_STABLE_SORT(4, a_stable_sort, 3, 3)
-/*@GROUP name=stable_sort_mod3_t props=C06,C02 kind=B bound=len<=6,values_in_[-4,4] unwind=9 solver=kissat tier=thorough@*/
+/*@GROUP name=stable_sort_mod3_t props=C06,C02 kind=B bound=len<=6,values_in_[-4,4] unwind=9 solver=kissat tier=thorough timeout=3000@*/
 void h_stable_sort_mod3_t(void) B_STABLE_SORT(6, a_stable_sort, 3, 3)
-/*@GROUP name=insertion_sort props=C06,C02 kind=B bound=len<=4 unwind=7 solver=kissat@*/
+/*@GROUP name=insertion_sort props=C06,C02 kind=B bound=len<=4 unwind=7 solver=kissat timeout=600@*/
 void h_insertion_sort(void) B_STABLE_SORT(4, a_insertion_sort, 0, 2)
-/*@GROUP name=insertion_sort_t props=C06,C02 kind=B bound=len<=6 unwind=9 solver=kissat tier=thorough@*/
+/*@GROUP name=insertion_sort_t props=C06,C02 kind=B bound=len<=6 unwind=9 solver=kissat tier=thorough timeout=3000@*/
 void h_insertion_sort_t(void) B_STABLE_SORT(6, a_insertion_sort, 0, 2)
-/*@GROUP name=merge_sort props=C06,C02 kind=B bound=len<=4 unwind=7 solver=kissat@*/
-void h_merge_sort(void) B_STABLE_SORT(4, a_merge_sort, 0, 2)
-/*@GROUP name=merge_sort_t props=C06,C02 kind=B bound=len<=6 unwind=9 solver=kissat tier=thorough@*/
-void h_merge_sort_t(void) B_STABLE_SORT(6, a_merge_sort, 0, 2)
-/*@GROUP name=stable_sort_int props=C06,C02 kind=B bound=len<=4 unwind=7 solver=kissat@*/
+/*@GROUP name=merge_sort props=C06,C02 kind=B bound=len<=4 unwind=7 solver=kissat timeout=600@*/
+void h_merge_sort(void) B_STABLE_SORT_T(4, a_merge_sort, 0, 2)
+/*@GROUP name=merge_sort_t props=C06,C02 kind=B bound=len<=6 unwind=9 solver=kissat tier=thorough timeout=3000@*/
+void h_merge_sort_t(void) B_STABLE_SORT_T(6, a_merge_sort, 0, 2)
+/*@GROUP name=stable_sort_int props=C06,C02 kind=B bound=len<=4 unwind=7 solver=kissat timeout=600@*/
 void h_stable_sort_int(void) B_SORT_DEFAULT(4, a_stable_sort_int)
-/*@GROUP name=stable_sort_int_t props=C06,C02 kind=B bound=len<=6 unwind=9 solver=kissat tier=thorough@*/
+/*@GROUP name=stable_sort_int_t props=C06,C02 kind=B bound=len<=6 unwind=9 solver=kissat tier=thorough timeout=3000@*/
 void h_stable_sort_int_t(void) B_SORT_DEFAULT(6, a_stable_sort_int)
-/*@GROUP name=insertion_sort_int props=C06,C02 kind=B bound=len<=4 unwind=7 solver=kissat@*/
+/*@GROUP name=insertion_sort_int props=C06,C02 kind=B bound=len<=4 unwind=7 solver=kissat timeout=600@*/
 void h_insertion_sort_int(void) B_SORT_DEFAULT(4, a_insertion_sort_int)
-/*@GROUP name=insertion_sort_int_t props=C06,C02 kind=B bound=len<=6 unwind=9 solver=kissat tier=thorough@*/
+/*@GROUP name=insertion_sort_int_t props=C06,C02 kind=B bound=len<=6 unwind=9 solver=kissat tier=thorough timeout=3000@*/
 void h_insertion_sort_int_t(void) B_SORT_DEFAULT(6, a_insertion_sort_int)
-/*@GROUP name=merge_sort_int props=C06,C02 kind=B bound=len<=4 unwind=7 solver=kissat@*/
+/*@GROUP name=merge_sort_int props=C06,C02 kind=B bound=len<=4 unwind=7 solver=kissat timeout=600@*/
 void h_merge_sort_int(void) B_SORT_DEFAULT(4, a_merge_sort_int)
-/*@GROUP name=merge_sort_int_t props=C06,C02 kind=B bound=len<=6 unwind=9 solver=kissat tier=thorough@*/
+/*@GROUP name=merge_sort_int_t props=C06,C02 kind=B bound=len<=6 unwind=9 solver=kissat tier=thorough timeout=3000@*/
 void h_merge_sort_int_t(void) B_SORT_DEFAULT(6, a_merge_sort_int)
-/*@GROUP name=is_permutation3 props=C06,C02 kind=B bound=len<=4 unwind=7 solver=kissat@*/
+/*@GROUP name=is_permutation3 props=C06,C02 kind=B bound=len<=4 unwind=7 solver=kissat timeout=600@*/
 void h_is_permutation3(void) B_IS_PERMUTATION3(4)
-/*@GROUP name=is_permutation3_t props=C06,C02 kind=B bound=len<=6 unwind=9 solver=kissat tier=thorough@*/
+/*@GROUP name=is_permutation3_t props=C06,C02 kind=B bound=len<=6 unwind=9 solver=kissat tier=thorough timeout=3000@*/
 void h_is_permutation3_t(void) B_IS_PERMUTATION3(6)
-/*@GROUP name=is_permutation4 props=C06,C02 kind=B bound=len<=4 unwind=7 solver=kissat@*/
+/*@GROUP name=is_permutation4 props=C06,C02 kind=B bound=len<=4 unwind=7 solver=kissat timeout=600@*/
 void h_is_permutation4(void) B_IS_PERMUTATION4(4, a_is_permutation4, (void)0)
-/*@GROUP name=is_permutation4_t props=C06,C02 kind=B bound=len<=6 unwind=9 solver=kissat tier=thorough@*/
+/*@GROUP name=is_permutation4_t props=C06,C02 kind=B bound=len<=6 unwind=9 solver=kissat tier=thorough timeout=3000@*/
 void h_is_permutation4_t(void) B_IS_PERMUTATION4(6, a_is_permutation4, (void)0)
-/*@GROUP name=is_permutation4_fwd props=C06,C02 kind=B bound=len<=4 unwind=7 solver=kissat@*/
-void h_is_permutation4_fwd(void) B_IS_PERMUTATION4(4, a_is_permutation4_fwd, (void)0)
-/*@GROUP name=is_permutation4_fwd_t props=C06,C02 kind=B bound=len<=6 unwind=9 solver=kissat tier=thorough@*/
-void h_is_permutation4_fwd_t(void) B_IS_PERMUTATION4(6, a_is_permutation4_fwd, (void)0)
-/*@GROUP name=search props=C06,C02 kind=B bound=len<=4,needle<=4 unwind=7 solver=kissat@*/
+/*@GROUP name=is_permutation4_fwd props=C06,C02 kind=B bound=len<=4 unwind=7 solver=kissat timeout=600@*/
+void h_is_permutation4_fwd(void) B_IS_PERMUTATION4(4, a_is_permutation4_fwd, VF_KNOWN(C06_is_permutation4_forward_length, n != n2))
+/*@GROUP name=is_permutation4_fwd_t props=C06,C02 kind=B bound=len<=6 unwind=9 solver=kissat tier=thorough timeout=3000@*/
+void h_is_permutation4_fwd_t(void) B_IS_PERMUTATION4(6, a_is_permutation4_fwd, VF_KNOWN(C06_is_permutation4_forward_length, n != n2))
+/*@GROUP name=search props=C06,C02 kind=B bound=len<=4,needle<=4 unwind=7 solver=kissat timeout=600@*/
 void h_search(void) B_SEARCH(4, a_search, 0, 2)
-/*@GROUP name=search_t props=C06,C02 kind=B bound=len<=6,needle<=6 unwind=9 solver=kissat tier=thorough@*/
+/*@GROUP name=search_t props=C06,C02 kind=B bound=len<=6,needle<=6 unwind=9 solver=kissat tier=thorough timeout=3000@*/
 void h_search_t(void) B_SEARCH(6, a_search, 0, 2)
-/*@GROUP name=search_fwd props=C06,C02 kind=B bound=len<=4,needle<=4 unwind=7 solver=kissat@*/
+/*@GROUP name=search_fwd props=C06,C02 kind=B bound=len<=4,needle<=4 unwind=7 solver=kissat timeout=600@*/
 void h_search_fwd(void) B_SEARCH(4, a_search_fwd, 0, 2)
-/*@GROUP name=search_fwd_t props=C06,C02 kind=B bound=len<=6,needle<=6 unwind=9 solver=kissat tier=thorough@*/
+/*@GROUP name=search_fwd_t props=C06,C02 kind=B bound=len<=6,needle<=6 unwind=9 solver=kissat tier=thorough timeout=3000@*/
 void h_search_fwd_t(void) B_SEARCH(6, a_search_fwd, 0, 2)
-/*@GROUP name=find_end props=C06,C02 kind=B bound=len<=4,needle<=4 unwind=7 solver=kissat@*/
+/*@GROUP name=find_end props=C06,C02 kind=B bound=len<=4,needle<=4 unwind=7 solver=kissat timeout=600@*/
 void h_find_end(void) B_FIND_END(4, 0, 2)
-/*@GROUP name=find_end_t props=C06,C02 kind=B bound=len<=6,needle<=6 unwind=9 solver=kissat tier=thorough@*/
+/*@GROUP name=find_end_t props=C06,C02 kind=B bound=len<=6,needle<=6 unwind=9 solver=kissat tier=thorough timeout=3000@*/
 void h_find_end_t(void) B_FIND_END(6, 0, 2)
-/*@GROUP name=search_n props=C06,C02 kind=B bound=len<=4,count_in_[-1,len+1] unwind=7 solver=kissat@*/
+/*@GROUP name=search_n props=C06,C02 kind=B bound=len<=4,count_in_[-1,len+1] unwind=7 solver=kissat timeout=600@*/
 void h_search_n(void) B_SEARCH_N(4, 0, 2, VF_KNOWN(C06_search_n_broken_run, s > 0 && idx < n && fm != idx))
-/*@GROUP name=search_n_t props=C06,C02 kind=B bound=len<=6,count_in_[-1,len+1] unwind=9 solver=kissat tier=thorough@*/
+/*@GROUP name=search_n_t props=C06,C02 kind=B bound=len<=6,count_in_[-1,len+1] unwind=9 solver=kissat tier=thorough timeout=3000@*/
 void h_search_n_t(void) B_SEARCH_N(6, 0, 2, VF_KNOWN(C06_search_n_broken_run, s > 0 && idx < n && fm != idx))
-/*@GROUP name=find_first_of props=C06,C02 kind=B bound=len<=4,needle<=4 unwind=7 solver=kissat@*/
+/*@GROUP name=find_first_of props=C06,C02 kind=B bound=len<=4,needle<=4 unwind=7 solver=kissat timeout=600@*/
 void h_find_first_of(void) B_FIND_FIRST_OF(4, 0, 2)
-/*@GROUP name=find_first_of_t props=C06,C02 kind=B bound=len<=6,needle<=6 unwind=9 solver=kissat tier=thorough@*/
+/*@GROUP name=find_first_of_t props=C06,C02 kind=B bound=len<=6,needle<=6 unwind=9 solver=kissat tier=thorough timeout=3000@*/
 void h_find_first_of_t(void) B_FIND_FIRST_OF(6, 0, 2)
-/*@GROUP name=includes props=C06,C02 kind=B bound=len1<=4,len2<=4 unwind=7 solver=kissat@*/
+/*@GROUP name=includes props=C06,C02 kind=B bound=len1<=4,len2<=4 unwind=11 solver=kissat timeout=600@*/
 void h_includes(void) B_INCLUDES(4, 0, 3)
-/*@GROUP name=includes_t props=C06,C02 kind=B bound=len1<=6,len2<=6 unwind=9 solver=kissat tier=thorough@*/
+/*@GROUP name=includes_t props=C06,C02 kind=B bound=len1<=6,len2<=6 unwind=15 solver=kissat tier=thorough timeout=3000@*/
 void h_includes_t(void) B_INCLUDES(6, 0, 3)
-/*@GROUP name=merge props=C06,C02 kind=B bound=len1<=4,len2<=4 unwind=11 solver=kissat@*/
-void h_merge(void) B_MERGE(4, 0, 2)
-/*@GROUP name=merge_t props=C06,C02 kind=B bound=len1<=6,len2<=6 unwind=15 solver=kissat tier=thorough@*/
-void h_merge_t(void) B_MERGE(6, 0, 2)
-/*@GROUP name=merge_mod3 props=C06,C02 kind=B bound=len1<=4,len2<=4,values_in_[-4,4] unwind=11 solver=kissat@*/
-void h_merge_mod3(void) B_MERGE(4, 3, 3)
-/*@GROUP name=merge_mod3_t props=C06,C02 kind=B bound=len1<=6,len2<=6,values_in_[-4,4] unwind=15 solver=kissat tier=thorough@*/
-void h_merge_mod3_t(void) B_MERGE(6, 3, 3)
-/*@GROUP name=merge_int props=C06,C02 kind=B bound=len1<=4,len2<=4 unwind=11 solver=kissat@*/
-void h_merge_int(void) B_MERGE_INT(4, a_merge_int)
-/*@GROUP name=merge_int_t props=C06,C02 kind=B bound=len1<=6,len2<=6 unwind=15 solver=kissat tier=thorough@*/
-void h_merge_int_t(void) B_MERGE_INT(6, a_merge_int)
-/*@GROUP name=merge_fwd props=C06,C02 kind=B bound=len1<=4,len2<=4 unwind=11 solver=kissat@*/
-void h_merge_fwd(void) B_MERGE_INT(4, a_merge_fwd)
-/*@GROUP name=merge_fwd_t props=C06,C02 kind=B bound=len1<=6,len2<=6 unwind=15 solver=kissat tier=thorough@*/
-void h_merge_fwd_t(void) B_MERGE_INT(6, a_merge_fwd)
-/*@GROUP name=inplace_merge props=C06,C02 kind=B bound=len<=4 unwind=7 solver=kissat@*/
-void h_inplace_merge(void) B_INPLACE_MERGE(4, 0, 2)
-/*@GROUP name=inplace_merge_t props=C06,C02 kind=B bound=len<=6 unwind=9 solver=kissat tier=thorough@*/
-void h_inplace_merge_t(void) B_INPLACE_MERGE(6, 0, 2)
-/*@GROUP name=inplace_merge_int props=C06,C02 kind=B bound=len<=4 unwind=7 solver=kissat@*/
-void h_inplace_merge_int(void) B_INPLACE_MERGE_INT(4)
-/*@GROUP name=inplace_merge_int_t props=C06,C02 kind=B bound=len<=6 unwind=9 solver=kissat tier=thorough@*/
-void h_inplace_merge_int_t(void) B_INPLACE_MERGE_INT(6)
-/*@GROUP name=set_union props=C06,C02 kind=B bound=len1<=4,len2<=4 unwind=11 solver=kissat@*/
-void h_set_union(void) B_SETOP(4, OP_UNION, a_set_union, "set_union", 0, 2)
-/*@GROUP name=set_union_t props=C06,C02 kind=B bound=len1<=6,len2<=6 unwind=15 solver=kissat tier=thorough@*/
-void h_set_union_t(void) B_SETOP(6, OP_UNION, a_set_union, "set_union", 0, 2)
-/*@GROUP name=set_intersection props=C06,C02 kind=B bound=len1<=4,len2<=4 unwind=11 solver=kissat@*/
-void h_set_intersection(void) B_SETOP(4, OP_INTER, a_set_intersection, "set_intersection", 0, 2)
-/*@GROUP name=set_intersection_t props=C06,C02 kind=B bound=len1<=6,len2<=6 unwind=15 solver=kissat tier=thorough@*/
-void h_set_intersection_t(void) B_SETOP(6, OP_INTER, a_set_intersection, "set_intersection", 0, 2)
-/*@GROUP name=set_difference props=C06,C02 kind=B bound=len1<=4,len2<=4 unwind=11 solver=kissat@*/
-void h_set_difference(void) B_SETOP(4, OP_DIFF, a_set_difference, "set_difference", 0, 2)
-/*@GROUP name=set_difference_t props=C06,C02 kind=B bound=len1<=6,len2<=6 unwind=15 solver=kissat tier=thorough@*/
-void h_set_difference_t(void) B_SETOP(6, OP_DIFF, a_set_difference, "set_difference", 0, 2)
-/*@GROUP name=set_symmetric_difference props=C06,C02 kind=B bound=len1<=4,len2<=4 unwind=11 solver=kissat@*/
-void h_set_symmetric_difference(void) B_SETOP(4, OP_SYM, a_set_symmetric_difference, "set_symmetric_difference", 0, 2)
-/*@GROUP name=set_symmetric_difference_t props=C06,C02 kind=B bound=len1<=6,len2<=6 unwind=15 solver=kissat tier=thorough@*/
-void h_set_symmetric_difference_t(void) B_SETOP(6, OP_SYM, a_set_symmetric_difference, "set_symmetric_difference", 0, 2)
-/*@GROUP name=set_ops_mod3 props=C06,C02 kind=B bound=len1<=4,len2<=4,values_in_[-4,4] unwind=11 solver=kissat@*/
-void h_set_ops_mod3(void) B_SETOP(4, OP_SYM, a_set_symmetric_difference, "set_symmetric_difference", 3, 3)
-/*@GROUP name=set_ops_mod3_t props=C06,C02 kind=B bound=len1<=6,len2<=6,values_in_[-4,4] unwind=15 solver=kissat tier=thorough@*/
-void h_set_ops_mod3_t(void) B_SETOP(6, OP_SYM, a_set_symmetric_difference, "set_symmetric_difference", 3, 3)
-/*@GROUP name=set_ops_int props=C06,C02 kind=B bound=len1<=4,len2<=4 unwind=11 solver=kissat@*/
-void h_set_ops_int(void) B_SETOP_INT(4)
-/*@GROUP name=set_ops_int_t props=C06,C02 kind=B bound=len1<=6,len2<=6 unwind=15 solver=kissat tier=thorough@*/
-void h_set_ops_int_t(void) B_SETOP_INT(6)
-/*@GROUP name=transform_reduce props=C06,C02 kind=B bound=len<=4 unwind=7 solver=kissat@*/
+/*@GROUP name=merge props=C06,C02 kind=B bound=len1<=4,len2<=4 unwind=11 solver=kissat timeout=600@*/
+void h_merge(void) B_MERGE(4, a_merge(a, a + na, b, b + nb, d, c), 0, 2)
+/*@GROUP name=merge_t props=C06,C02 kind=B bound=len1<=6,len2<=6 unwind=15 solver=kissat tier=thorough timeout=3000@*/
+void h_merge_t(void) B_MERGE(6, a_merge(a, a + na, b, b + nb, d, c), 0, 2)
+/*@GROUP name=merge_mod3 props=C06,C02 kind=B bound=len1<=4,len2<=4,values_in_[-4,4] unwind=11 solver=kissat timeout=600@*/
+void h_merge_mod3(void) B_MERGE(4, a_merge(a, a + na, b, b + nb, d, c), 3, 3)
+/*@GROUP name=merge_mod3_t props=C06,C02 kind=B bound=len1<=6,len2<=6,values_in_[-4,4] unwind=15 solver=kissat tier=thorough timeout=3000@*/
+void h_merge_mod3_t(void) B_MERGE(6, a_merge(a, a + na, b, b + nb, d, c), 3, 3)
+/*@GROUP name=merge_int props=C06,C02 kind=B bound=len1<=4,len2<=4 unwind=11 solver=kissat timeout=600@*/
+void h_merge_int(void) B_MERGE(4, a_merge_int(a, a + na, b, b + nb, d), 4, 4)
+/*@GROUP name=merge_int_t props=C06,C02 kind=B bound=len1<=6,len2<=6 unwind=15 solver=kissat tier=thorough timeout=3000@*/
+void h_merge_int_t(void) B_MERGE(6, a_merge_int(a, a + na, b, b + nb, d), 4, 4)
+/*@GROUP name=merge_fwd props=C06,C02 kind=B bound=len1<=4,len2<=4 unwind=11 solver=kissat timeout=600@*/
+void h_merge_fwd(void) B_MERGE(4, a_merge_fwd(a, a + na, b, b + nb, d), 4, 4)
+/*@GROUP name=merge_fwd_t props=C06,C02 kind=B bound=len1<=6,len2<=6 unwind=15 solver=kissat tier=thorough timeout=3000@*/
+void h_merge_fwd_t(void) B_MERGE(6, a_merge_fwd(a, a + na, b, b + nb, d), 4, 4)
+/*@GROUP name=inplace_merge props=C06,C02 kind=B bound=len<=4 unwind=7 solver=kissat timeout=600@*/
+void h_inplace_merge(void) B_INPLACE_MERGE(4, a_inplace_merge(a, a + m, a + n, c), 0, 2)
+/*@GROUP name=inplace_merge_t props=C06,C02 kind=B bound=len<=6 unwind=9 solver=kissat tier=thorough timeout=3000@*/
+void h_inplace_merge_t(void) B_INPLACE_MERGE(6, a_inplace_merge(a, a + m, a + n, c), 0, 2)
+/*@GROUP name=inplace_merge_int props=C06,C02 kind=B bound=len<=4 unwind=7 solver=kissat timeout=600@*/
+void h_inplace_merge_int(void) B_INPLACE_MERGE(4, a_inplace_merge_int(a, a + m, a + n), 4, 4)
+/*@GROUP name=inplace_merge_int_t props=C06,C02 kind=B bound=len<=6 unwind=9 solver=kissat tier=thorough timeout=3000@*/
+void h_inplace_merge_int_t(void) B_INPLACE_MERGE(6, a_inplace_merge_int(a, a + m, a + n), 4, 4)
+/*@GROUP name=set_union props=C06,C02 kind=B bound=len1<=4,len2<=4 unwind=11 solver=kissat timeout=600@*/
+void h_set_union(void) B_SETOP(4, OP_UNION, a_set_union(a, a + na, b, b + nb, d, c), "set_union", 0, 2)
+/*@GROUP name=set_union_t props=C06,C02 kind=B bound=len1<=6,len2<=6 unwind=15 solver=kissat tier=thorough timeout=3000@*/
+void h_set_union_t(void) B_SETOP(6, OP_UNION, a_set_union(a, a + na, b, b + nb, d, c), "set_union", 0, 2)
+/*@GROUP name=set_union_int props=C06,C02 kind=B bound=len1<=4,len2<=4 unwind=11 solver=kissat timeout=600@*/
+void h_set_union_int(void) B_SETOP(4, OP_UNION, a_set_ops_int(0, a, a + na, b, b + nb, d), "set_union", 4, 4)
+/*@GROUP name=set_union_int_t props=C06,C02 kind=B bound=len1<=6,len2<=6 unwind=15 solver=kissat tier=thorough timeout=3000@*/
+void h_set_union_int_t(void) B_SETOP(6, OP_UNION, a_set_ops_int(0, a, a + na, b, b + nb, d), "set_union", 4, 4)
+/*@GROUP name=set_intersection props=C06,C02 kind=B bound=len1<=4,len2<=4 unwind=11 solver=kissat timeout=600@*/
+void h_set_intersection(void) B_SETOP(4, OP_INTER, a_set_intersection(a, a + na, b, b + nb, d, c), "set_intersection", 0, 2)
+/*@GROUP name=set_intersection_t props=C06,C02 kind=B bound=len1<=6,len2<=6 unwind=15 solver=kissat tier=thorough timeout=3000@*/
+void h_set_intersection_t(void) B_SETOP(6, OP_INTER, a_set_intersection(a, a + na, b, b + nb, d, c), "set_intersection", 0, 2)
+/*@GROUP name=set_intersection_int props=C06,C02 kind=B bound=len1<=4,len2<=4 unwind=11 solver=kissat timeout=600@*/
+void h_set_intersection_int(void) B_SETOP(4, OP_INTER, a_set_ops_int(1, a, a + na, b, b + nb, d), "set_intersection", 4, 4)
+/*@GROUP name=set_intersection_int_t props=C06,C02 kind=B bound=len1<=6,len2<=6 unwind=15 solver=kissat tier=thorough timeout=3000@*/
+void h_set_intersection_int_t(void) B_SETOP(6, OP_INTER, a_set_ops_int(1, a, a + na, b, b + nb, d), "set_intersection", 4, 4)
+/*@GROUP name=set_difference props=C06,C02 kind=B bound=len1<=4,len2<=4 unwind=11 solver=kissat timeout=600@*/
+void h_set_difference(void) B_SETOP(4, OP_DIFF, a_set_difference(a, a + na, b, b + nb, d, c), "set_difference", 0, 2)
+/*@GROUP name=set_difference_t props=C06,C02 kind=B bound=len1<=6,len2<=6 unwind=15 solver=kissat tier=thorough timeout=3000@*/
+void h_set_difference_t(void) B_SETOP(6, OP_DIFF, a_set_difference(a, a + na, b, b + nb, d, c), "set_difference", 0, 2)
+/*@GROUP name=set_difference_int props=C06,C02 kind=B bound=len1<=4,len2<=4 unwind=11 solver=kissat timeout=600@*/
+void h_set_difference_int(void) B_SETOP(4, OP_DIFF, a_set_ops_int(2, a, a + na, b, b + nb, d), "set_difference", 4, 4)
+/*@GROUP name=set_difference_int_t props=C06,C02 kind=B bound=len1<=6,len2<=6 unwind=15 solver=kissat tier=thorough timeout=3000@*/
+void h_set_difference_int_t(void) B_SETOP(6, OP_DIFF, a_set_ops_int(2, a, a + na, b, b + nb, d), "set_difference", 4, 4)
+/*@GROUP name=set_symmetric_difference props=C06,C02 kind=B bound=len1<=4,len2<=4 unwind=11 solver=kissat timeout=600@*/
+void h_set_symmetric_difference(void) B_SETOP(4, OP_SYM, a_set_symmetric_difference(a, a + na, b, b + nb, d, c), "set_symmetric_difference", 0, 2)
+/*@GROUP name=set_symmetric_difference_t props=C06,C02 kind=B bound=len1<=6,len2<=6 unwind=15 solver=kissat tier=thorough timeout=3000@*/
+void h_set_symmetric_difference_t(void) B_SETOP(6, OP_SYM, a_set_symmetric_difference(a, a + na, b, b + nb, d, c), "set_symmetric_difference", 0, 2)
+/*@GROUP name=set_symmetric_difference_int props=C06,C02 kind=B bound=len1<=4,len2<=4 unwind=11 solver=kissat timeout=600@*/
+void h_set_symmetric_difference_int(void) B_SETOP(4, OP_SYM, a_set_ops_int(3, a, a + na, b, b + nb, d), "set_symmetric_difference", 4, 4)
+/*@GROUP name=set_symmetric_difference_int_t props=C06,C02 kind=B bound=len1<=6,len2<=6 unwind=15 solver=kissat tier=thorough timeout=3000@*/
+void h_set_symmetric_difference_int_t(void) B_SETOP(6, OP_SYM, a_set_ops_int(3, a, a + na, b, b + nb, d), "set_symmetric_difference", 4, 4)
+/*@GROUP name=set_ops_mod3 props=C06,C02 kind=B bound=len1<=4,len2<=4,values_in_[-4,4] unwind=11 solver=kissat timeout=600@*/
+void h_set_ops_mod3(void) B_SETOP(4, OP_SYM, a_set_symmetric_difference(a, a + na, b, b + nb, d, c), "set_symmetric_difference", 3, 3)
+/*@GROUP name=set_ops_mod3_t props=C06,C02 kind=B bound=len1<=6,len2<=6,values_in_[-4,4] unwind=15 solver=kissat tier=thorough timeout=3000@*/
+void h_set_ops_mod3_t(void) B_SETOP(6, OP_SYM, a_set_symmetric_difference(a, a + na, b, b + nb, d, c), "set_symmetric_difference", 3, 3)
+/*@GROUP name=transform_reduce props=C06,C02 kind=B bound=len<=4 unwind=7 solver=kissat timeout=600@*/
 void h_transform_reduce(void) B_TRANSFORM_REDUCE(4)
-/*@GROUP name=transform_reduce_t props=C06,C02 kind=B bound=len<=6 unwind=9 solver=kissat tier=thorough@*/
+/*@GROUP name=transform_reduce_t props=C06,C02 kind=B bound=len<=6 unwind=9 solver=kissat tier=thorough timeout=3000@*/
 void h_transform_reduce_t(void) B_TRANSFORM_REDUCE(6)
+
+/* ============================================================ iterator adaptors ===============================================
+ * Positions are symbolic inside one 8-element array (pointer arithmetic does not depend on the array size); the adaptor code on int* is
+ * loop-free (kind F); the wrapper-iterator instantiations of advance/next/prev/distance loop |n| <= 8 times (kind B). */
+/*@COMMON@*/
+typedef struct etl_static_vector_int_4 V4;
+#define V4SZ(v) ((v).b0._size)
+#define V4EL(v, i) ((v).b0._data._buf[i])
+#define POS(i) VF_INPUT(unsigned char, i); VF_ASSUME(i <= 8)
+
+/*@GROUP name=reverse_iterator props=C06,C02 kind=F unwind=2@*/
+void h_reverse_iterator(void) { VF_INPUT_ARR(int, a, 8); POS(i); POS(j); VF_INPUT(signed char, d); int *p = a + i, *q = a + j, *res;
+  VF_ASSERT(ri_base(p) == p && ri_make(p) == p && ri_convert(p) == p && ri_convert_assign(p, q) == p, "reverse_iterator(x).base() == x; make_reverse_iterator; converting construction / assignment copy base()");
+  VF_ASSERT(ri_default_base() == 0, "reverse_iterator() value-initialises current");
+  if (i >= 1) { VF_ASSERT(ri_deref(p) == p - 1 && ri_arrow(p) == p - 1, "*r and r.operator->() address *(current - 1)"); }
+  if (i >= 1) { VF_ASSERT(ri_preinc(p, &res) == p - 1 && res == p - 1, "++r decrements current and returns *this"); VF_ASSERT(ri_postinc(p, &res) == p - 1 && res == p, "r++ decrements current and returns the old value"); }
+  if (i <= 7) { VF_ASSERT(ri_predec(p, &res) == p + 1 && res == p + 1, "--r increments current and returns *this"); VF_ASSERT(ri_postdec(p, &res) == p + 1 && res == p, "r-- increments current and returns the old value"); }
+  if (d <= i && i - d <= 8) { VF_ASSERT(ri_plus(p, d) == p - d && ri_plus_l(p, d) == p - d && ri_plus_eq(p, d) == p - d, "r + n, n + r, r += n: current - n"); }
+  if (-d <= i && i + d <= 8) { VF_ASSERT(ri_minus(p, d) == p + d && ri_minus_eq(p, d) == p + d, "r - n, r -= n: current + n"); }
+  if (d + 1 <= i && i - d - 1 <= 7) { VF_ASSERT(ri_index(p, d) == p - d - 1, "r[n] is *(current - n - 1)"); }
+  VF_ASSERT(ri_diff(p, q) == j - i, "r1 - r2 == r2.base() - r1.base()");
+  VF_REACH(); }
+
+/*@GROUP name=reverse_iterator_cmp props=C06,C02 kind=F unwind=2@*/
+void h_reverse_iterator_cmp(void) { VF_INPUT_ARR(int, a, 8); POS(i); POS(j); int *p = a + i, *q = a + j;
+  VF_KNOWN(C06_reverse_iterator_relational, i != j);
+  unsigned r = ri_cmp(p, q);
+  VF_ASSERT(((r & 1u) != 0) == (i == j) && ((r & 2u) != 0) == (i != j), "reverse_iterator ==, != compare base()");
+  VF_ASSERT(((r & 4u) != 0) == (i > j) && ((r & 8u) != 0) == (i >= j) && ((r & 16u) != 0) == (i < j) && ((r & 32u) != 0) == (i <= j), "[reverse.iter.cmp]: x < y iff x.base() > y.base(), x <= y iff x.base() >= y.base(), x > y iff x.base() < y.base(), x >= y iff x.base() <= y.base()");
+  VF_REACH(); }
+
+/*@GROUP name=reverse_iterator_copy props=C06,C02 kind=B bound=len<=6 unwind=9@*/
+void h_reverse_iterator_copy(void) { LEN(n, 6); IN(int, a, 6);
+  SPLIT(n, 6) { MK(int, a, n, 6); OUT(int, d, n);
+    int *r = ri_copy(a, a + n, d);
+    VF_ASSERT(r == d + n, "copy(rbegin, rend, out) returns out + n");
+    FORK(k, 6, n) VF_ASSERT(d[k] == a_in[n - 1 - k], "a range of reverse_iterators traverses the elements backwards"); }
+  VF_REACH(); }
+
+/*@GROUP name=back_insert_iterator props=C06,C02,C05 kind=K unwind=7@*/
+void h_back_insert_iterator(void) { VF_INPUT(V4, v); VF_INPUT(int, x); VF_INPUT(unsigned char, which); LEN(c, 4); IN(int, s, 4); VF_ASSUME(V4SZ(v) <= 4); V4 o = v; unsigned n0 = V4SZ(v);
+  if (which <= 1) { VF_ASSUME(n0 < 4); if (which == 0) i_back_insert(&v, &x); else i_back_insert_rv(&v, x);
+    VF_ASSERT(V4SZ(v) == n0 + 1 && V4EL(v, n0) == x, "*it = x (copy and move overload) is c.push_back(x); *it, ++it, it++ are no-ops");
+    FORK(k, 4, n0) VF_ASSERT(V4EL(v, k) == V4EL(o, k), "back_insert_iterator keeps the existing elements"); }
+  else { VF_ASSUME(n0 + c <= 4); SPLIT(c, 4) { MK(int, s, c, 4); i_back_copy(&v, s, s + c);
+    VF_ASSERT(V4SZ(v) == n0 + c, "copy(first, last, back_inserter(c)) appends last - first elements");
+    FORK(k, 4, n0 + c) VF_ASSERT(V4EL(v, k) == (k < (int)n0 ? V4EL(o, k) : s_in[k - n0]), "copy(first, last, back_inserter(c)): old elements, then the source range in order"); } }
+  VF_REACH(); }
+
+/*@GROUP name=front_insert_iterator props=C06,C02,C05 kind=K unwind=7 solver=kissat@*/
+void h_front_insert_iterator(void) { VF_INPUT(struct vf_front_box, b); VF_INPUT(int, x); VF_INPUT(unsigned char, which); LEN(c, 4); IN(int, s, 4); VF_ASSUME(V4SZ(b.v) <= 4); V4 o = b.v; unsigned n0 = V4SZ(b.v);
+  if (which <= 1) { VF_ASSUME(n0 < 4); if (which == 0) i_front_insert(&b, &x); else i_front_insert_rv(&b, x);
+    VF_ASSERT(V4SZ(b.v) == n0 + 1 && V4EL(b.v, 0) == x, "*it = x (copy and move overload) is c.push_front(x); *it, ++it, it++ are no-ops");
+    FORK(k, 4, n0) VF_ASSERT(V4EL(b.v, k + 1) == V4EL(o, k), "front_insert_iterator keeps the existing elements behind the new one"); }
+  else { VF_ASSUME(n0 + c <= 4); SPLIT(c, 4) { MK(int, s, c, 4); i_front_copy(&b, s, s + c);
+    VF_ASSERT(V4SZ(b.v) == n0 + c, "copy(first, last, front_inserter(c)) prepends last - first elements");
+    FORK(k, 4, n0 + c) VF_ASSERT(V4EL(b.v, k) == (k < c ? s_in[c - 1 - k] : V4EL(o, k - c)), "copy(first, last, front_inserter(c)): the source range reversed, then the old elements"); } }
+  VF_REACH(); }
+
+/*@GROUP name=iter_ops_ptr props=C06,C02 kind=F unwind=2@*/
+void h_iter_ops_ptr(void) { VF_INPUT_ARR(int, a, 8); POS(i); POS(j); VF_INPUT(signed char, d); int *p = a + i, *q = a + j;
+  if (-d <= i && i + d <= 8) { VF_ASSERT(it_next(p, d) == p + d && it_advance(p, d) == p + d && it_advance_int(p, d) == p + d, "next(it, n) / advance(it, n) on a random access iterator: it + n (n may be negative)"); }
+  if (d <= i && i - d <= 8) { VF_ASSERT(it_prev(p, d) == p - d, "prev(it, n) == it - n"); }
+  if (i <= 7) { VF_ASSERT(it_next1(p) == p + 1, "next(it) == it + 1"); }
+  if (i >= 1) { VF_ASSERT(it_prev1(p) == p - 1, "prev(it) == it - 1"); }
+  VF_ASSERT(it_distance(p, q) == j - i, "distance(first, last) == last - first for random access iterators (may be negative)");
+  VF_REACH(); }
+
+/*@GROUP name=iter_ops_wrapped props=C06,C02 kind=B bound=|n|<=8 unwind=11@*/
+void h_iter_ops_wrapped(void) { VF_INPUT_ARR(int, a, 8); POS(i); POS(j); VF_INPUT(signed char, d); int *p = a + i, *q = a + j;
+  if (d >= 0 && i + d <= 8) { VF_ASSERT(it_next_fwd(p, d) == p + d && it_advance_fwd(p, d) == p + d, "next / advance on a forward iterator: n increments"); }
+  if (-d <= i && i + d <= 8) { VF_ASSERT(it_next_bidi(p, d) == p + d && it_advance_bidi(p, d) == p + d, "next / advance on a bidirectional iterator: n increments or -n decrements"); }
+  if (d <= i && i - d <= 8) { VF_ASSERT(it_prev_bidi(p, d) == p - d, "prev on a bidirectional iterator: n decrements or -n increments"); }
+  if (i <= j) { VF_ASSERT(it_distance_fwd(p, q) == j - i && it_distance_bidi(p, q) == j - i, "distance(first, last): number of increments from first to last"); }
+  VF_REACH(); }
